@@ -59,6 +59,15 @@ Flat(parts, i) == IF i > Len(parts) THEN <<>> ELSE parts[i] \o Flat(parts, i + 1
 \* cartesian product, the first generator varying slowest
 Prod(xs, ys, i) == IF i > Len(xs) THEN <<>>
                    ELSE [j \in 1..Len(ys) |-> StructV(<<xs[i], ys[j]>>)] \o Prod(xs, ys, i + 1)
+\* a run of skip / take operations applied one after the other (slices of slices of slices)
+RECURSIVE SliceRun(_, _, _), SliceTerm(_, _, _)
+SliceRun(xs, ops, i) ==
+    IF i > Len(ops) THEN xs
+    ELSE LET k == ops[i][2]  n == Len(xs)
+         IN SliceRun(IF ops[i][1] = "take" THEN SubSeq(xs, 1, Mn(k, n)) ELSE SubSeq(xs, Mn(k, n) + 1, n), ops, i + 1)
+SliceTerm(t, ops, i) ==
+    IF i > Len(ops) THEN t
+    ELSE SliceTerm([k |-> "call", f |-> ops[i][1], args |-> <<t, [k |-> "lit", ty |-> "int", v |-> ops[i][2]]>>, sty |-> "method"], ops, i + 1)
 \* number of elements of an infinite prefix that satisfy p
 Matches(p, xs) == Len(Filter(p, xs, 1))
 
@@ -100,7 +109,7 @@ Op(rr) ==
     IN IF S = {} THEN Source(rr)
     ELSE
     LET i == Ch(S, rr[1])  e == pool[i]  xs == e.v  n == Len(xs)
-        o == Ch(1..34, rr[2])
+        o == Ch(1..37, rr[2])
         int == e.ety = "int"
     IN
     CASE o = 1 /\ int -> LET f == Fns[Ch(1..3, rr[3])]
@@ -180,6 +189,12 @@ Op(rr) ==
                             Call("enumerate", <<V(i), Lit(a), Lit(d)>>))
       [] o = 34 /\ int /\ n >= 1 /\ ~e.inf ->
                   NewVal(IntV(SumAll(xs, 1)), Call("reduce", <<V(i), Raw("(a: int, b: int) -> {a + b}")>>))
+      \* three or four skip / take operations in a row on one generator
+      [] o \in {35, 36, 37} /\ (~e.inf \/ n > 40) ->
+                  LET m == 3 + (rr[3] % 2)
+                      ops == [j \in 1..m |-> <<IF (rr[4] \div (2 ^ j)) % 2 = 0 THEN "skip" ELSE "take", (rr[4 + j] % 7)>>]
+                      takes == \E j \in 1..m : ops[j][1] = "take"
+                  IN NewGen(SliceRun(xs, ops, 1), e.inf /\ ~takes, e.ety, SliceTerm(V(i), ops, 1))
       [] OTHER -> Source(rr)
 
 Init == pool = <<>> /\ step = 0 /\ r = <<>>
